@@ -256,7 +256,7 @@ def build_cases(tier, seed):
         if j % 3 == 1:
             net["latlon_keys"] = True
         if j % 4 == 2:
-            net["preset_time"] = [0.3, 0.6, 0.9][(j // 4) % 3]
+            net["preset_time"] = ["fast", 0.5, "fast", 0.9][(j // 4) % 4]
         if j % 4 == 1:
             net["origin"] = list(G.PLACES[(j // 4) % len(G.PLACES)])  # a town elsewhere on the globe (across the 180th meridian, far north, ...)
         cases.append({"engine": "c14_sweep", "id": f"C14-grid{j}", "seed": seed * 1000 + j, "net": net, "n": per})
